@@ -15,6 +15,7 @@
 -/
 import BumpverVerif.Gen.F_incrDispatch
 import BumpverVerif.Proofs.TieCliLemmas
+set_option linter.unusedSimpArgs false
 namespace BV
 
 attribute [local irreducible] isValid parseVersionInfo incr v1IsValid v1ParseVersionInfo v1Incr
@@ -31,15 +32,39 @@ theorem tie_incrDispatch (today : Date) (old pat : Str) (fl : IncrFlags) (maybe_
     GenC.incrDispatch today false old pat fl.major fl.minor fl.patch fl.tag fl.tagNum fl.pinIncrements
         fl.pinDate maybe_date
       = dispatchIncrExc old pat fl (maybe_date.getD today) today := by
-  have hv : (List.any ((Gen.v1PartPatterns.map (·.1)) ++ (Gen.v1FullPartFormats.map (·.1)))
-      (fun part => isInfix (("{".toList ++ part) ++ "}".toList) pat)) = hasV1Part pat := rfl
-  unfold GenC.incrDispatch dispatchIncrExc
-  simp only [Bool.false_eq_true, if_false, hv]
-  cases hasV1Part pat
-  · simp only [Bool.false_eq_true, if_false, pyV2Incr]
-    cases fl; split <;> simp_all
-  · simp only [if_true, pyV1Incr, IncrFlags.toV1]
-    split <;> simp_all
+  first
+    | -- `has_v1_part = any("{" + part + "}" in raw_pattern for part in v1_parts)`
+      (have hv : (List.any ((Gen.v1PartPatterns.map (·.1)) ++ (Gen.v1FullPartFormats.map (·.1)))
+          (fun part => isInfix (("{".toList ++ part) ++ "}".toList) pat)) = hasV1Part pat := rfl
+       unfold GenC.incrDispatch dispatchIncrExc
+       simp only [Bool.false_eq_true, if_false, hv]
+       cases hasV1Part pat
+       · simp only [Bool.false_eq_true, if_false, pyV2Incr]
+         cases fl; split <;> simp_all
+       · simp only [if_true, pyV1Incr, IncrFlags.toV1]
+         split <;> simp_all)
+    | -- `has_v1_part = False; for part in v1_parts: if "{" + part + "}" in raw_pattern: has_v1_part = True; break`
+      (have hany : hasV1Part pat = (List.any ((Gen.v1PartPatterns.map (·.1)) ++ (Gen.v1FullPartFormats.map (·.1)))
+          (fun part => isInfix (("{".toList ++ part) ++ "}".toList) pat)) := rfl
+       unfold GenC.incrDispatch dispatchIncrExc
+       dsimp only
+       cases hfind : List.find? (fun part => isInfix (("{".toList ++ part) ++ "}".toList) pat)
+           ((Gen.v1PartPatterns.map (·.1)) ++ (Gen.v1FullPartFormats.map (·.1))) with
+       | none =>
+         have h0 : hasV1Part pat = false := by
+           rw [hany, List.any_eq_false]
+           intro x hx
+           simpa using List.find?_eq_none.mp hfind x hx
+         simp only [h0, Bool.false_eq_true, if_false, if_true, Bool.not_false, pyV2Incr]
+         cases fl; split <;> simp_all
+       | some part =>
+         have h1 : hasV1Part pat = true := by
+           have hp := List.find?_some hfind
+           have hm := List.mem_of_find?_eq_some hfind
+           rw [hany, List.any_eq_true]
+           exact ⟨part, hm, hp⟩
+         simp only [h1, Bool.false_eq_true, if_false, if_true, Bool.not_true, pyV1Incr, IncrFlags.toV1]
+         split <;> simp_all)
 
 /-- the model's `dispatchIncr` is the generated function with errors collapsed to crash/unsupported -/
 def collapseIncr : Except Exc (Option Str) → IncrResult
